@@ -1,7 +1,7 @@
 /-
   C11 — property theorems of wave 3 (and non-vacuity examples) ONLY.
   Helper lemmas: `Arrivals.lean` (signals arriving while an action runs), `Honest.lean` (the call record),
-  `Frames.lean` (the frame walk of `in_trap`).
+  `Frames.lean` (the frame walk of `in_trap`), `Economy.lean` (the calls of every operation of a faultless history).
 -/
 import YashModel.Trap.Arrivals
 import YashModel.Trap.Honest
@@ -9,6 +9,7 @@ import YashModel.Trap.Theorems
 import YashModel.Trap.Frames
 import YashModel.Trap.Tables
 import YashModel.Trap.TheoremsExt
+import YashModel.Trap.Economy
 namespace YashModel.Trap
 
 /-! ## 1. "regardless of when the signal arrives": arrivals while an action runs -/
@@ -373,5 +374,52 @@ theorem spec_check_never_fires_faultless (init : Nat → Disp) (hinit : ∀ s, i
     specCheck init (runF (FState.init init []) ops).toState = none := by
   rw [(faultless_refines init ops).1]
   exact spec_check_never_fires init hinit ops
+
+/-! ## 7. The calls of whole histories ("system call issued only when the effective maximum changes") -/
+
+/-- ★ `faultless_calls_clean` (was: proved per entry by `occupied_no_needless_syscall`, evaluated per case for whole
+    operations).  For EVERY history without faults, from every inherited dispositions ∈ {Default, Ignore}, and
+    every next operation — also the multi-signal ones: the six enable/disable sequences, `enter_subshell` with
+    its loop over the whole trap set and the trailing SIGINT/SIGQUIT loop —: the calls the operation makes
+    never re-install the installed disposition of a signal the trap set knows (`economical`), never touch KILL
+    or STOP (`sparesKillStop`), come as `mask+, sigaction(Catch)` / `sigaction(d), mask-` (`wellBracketed`; a
+    `get_sigaction` of `peek` apart), and none fails. -/
+theorem faultless_calls_clean (init : Nat → Disp) (hinit : ∀ s, init s ≠ .catch) (ops : List Op) (op : Op) :
+    let st := runF (FState.init init []) ops
+    economical st.traps (newCalls st (stepF st op)) = true
+    ∧ sparesKillStop (newCalls st (stepF st op)) = true
+    ∧ wellBracketed (writes (newCalls st (stepF st op))) = true
+    ∧ anyFailed (newCalls st (stepF st op)) = false :=
+  faultless_calls_clean_aux init hinit ops op
+
+/-- ★ `sc_verdict_never_fires` — the whole Spec verdict of the `sc` leg (`scViolation`: KILL/STOP spared,
+    error reported iff a call failed, no needless call, bracket order, state predicate) is `none` for every
+    operation after every faultless history: all five clauses are now theorems about the model, the per-case
+    evaluation can only fire when the model is changed (or a fault is injected: then only `honest` and
+    `sparesKillStop` are demanded, and `honest` is proved for every fault plan). -/
+theorem sc_verdict_never_fires (init : Nat → Disp) (hinit : ∀ s, init s ≠ .catch) (ops : List Op) (op : Op) :
+    let st := runF (FState.init init []) ops
+    scViolation init false st (stepF st op) (resultF st op) = none := by
+  intro st
+  obtain ⟨h1, h2, h3, h4⟩ :
+      economical st.traps (newCalls st (stepF st op)) = true
+      ∧ sparesKillStop (newCalls st (stepF st op)) = true
+      ∧ wellBracketed (writes (newCalls st (stepF st op))) = true
+      ∧ anyFailed (newCalls st (stepF st op)) = false := faultless_calls_clean init hinit ops op
+  have h5 := honest_step st op
+  have h6 : specCheck init (stepF st op).toState = none := by
+    have := spec_check_never_fires_faultless init hinit (ops ++ [op])
+    rwa [runF_snoc] at this
+  unfold scViolation
+  simp only [h2, h5, h4, h1, h3, h6, Bool.not_true, Bool.false_eq_true, if_false, Bool.or_false, Option.map_none]
+
+/-- non-vacuity: an asynchronous list entered from an interactive shell with a command trap and a peeked
+    signal — six calls, verdict clean -/
+example :
+    let ops : List Op := [.enableTerminators, .setAction SIGUSR1 (.command 1) 0 false, .peek SIGKILL, .enableChld]
+    let st := runF (FState.init (fun _ => .default) []) ops
+    (newCalls st (stepF st (.enterSubshell true false))).length = 6
+    ∧ scViolation (fun _ => .default) false st (stepF st (.enterSubshell true false))
+        (resultF st (.enterSubshell true false)) = none := by decide
 
 end YashModel.Trap
